@@ -110,18 +110,13 @@ func snapRun(session flows.Session, r flows.Run, redact bool, tree *node) *runSn
 			}
 		}
 	}
-	if p := r.Parent(); p != nil && !isNilSummary(p) {
+	if p := r.Parent(); p != nil {
 		s.Parent = snapRelated(p)
 	}
 	if ch := session.GetCurrentChild(r); ch != nil {
 		s.Child = snapRelated(ch)
 	}
 	return s
-}
-
-func isNilSummary(r flows.RunSummary) bool {
-	defer func() { recover() }()
-	return fmt.Sprintf("%v", r) == "<nil>"
 }
 
 // ---- Coq printing ---------------------------------------------------------------------------------
